@@ -67,6 +67,8 @@ class BaseEngine(abc.ABC):
         self.samples = None
         #: Dict[Any, List]: the measurement results as a dictionary with measured modes as keys
         self.samples_dict = None
+        #: Dict[Any, Any]: latest measured value of every mode measured since the last reset
+        self._latest_values = {}
 
         if isinstance(backend, str):
             self.backend_name = backend
@@ -134,6 +136,7 @@ class BaseEngine(abc.ABC):
             p._clear_regrefs()
         self.run_progs.clear()
         self.samples = None
+        self._latest_values = {}
 
     def print_applied(self, print_fn=print):
         """Print all the Programs run since the backend was initialized.
@@ -296,8 +299,9 @@ class BaseEngine(abc.ABC):
                 # Copy the latest measured values in the RegRefs of p.
                 # We cannot copy from prev directly because it could be used in more than one
                 # engine.
-                for k, v in self.samples_dict.items():
-                    p.reg_refs[k].val = v[-1]
+                # (from all earlier segments, not only the previous one)
+                for k, v in self._latest_values.items():
+                    p.reg_refs[k].val = v
 
             # bind free parameters to their values
             p.bind_params(args)
@@ -305,6 +309,8 @@ class BaseEngine(abc.ABC):
 
             _, self.samples, self.samples_dict = self._run_program(p, **kwargs)
             self.run_progs.append(p)
+            for k, v in (self.samples_dict or {}).items():
+                self._latest_values[k] = v[-1]
 
             if isinstance(p, TDMProgram) and received_rolled:
                 p.roll()
